@@ -2,16 +2,10 @@
    proved sound, so that concrete layouts (examples, generated cases) can be shown to satisfy
    them by evaluation. *)
 From Coq Require Import ZArith List Bool Lia Sorting.Sorted.
-From Synnax Require Import Cesium.Store Cesium.StoreProofs Cesium.IndexSearchProofs Cesium.DomIterProofs
-     Cesium.DistanceProofs Cesium.UnaryIterExact Cesium.SliceProofs Cesium.UnaryIterSpec.
+From Synnax Require Import Cesium.LayoutOk Cesium.Store Cesium.StoreProofs Cesium.IndexSearchProofs Cesium.DomIterProofs
+     Cesium.Distance Cesium.UnaryIter Cesium.DistanceProofs Cesium.UnaryIterExact Cesium.SliceProofs Cesium.UnaryIterSpec Cesium.TruthProofs Cesium.DistanceChain.
 Import ListNotations.
 Local Open Scope Z_scope.
-
-Fixpoint chain_okb {A} (r : A -> A -> bool) (l : list A) : bool :=
-  match l with
-  | a :: ((b :: _) as t) => r a b && chain_okb r t
-  | _ => true
-  end.
 
 Lemma chain_sorted {A} (R : A -> A -> Prop) (r : A -> A -> bool) :
   (forall a b, r a b = true -> R a b) -> (forall a b c, R a b -> R b c -> R a c) ->
@@ -26,13 +20,8 @@ Proof.
     rewrite Forall_forall in *. intros x Hx. eapply Tr; [apply Hr, H1|apply F, Hx].
 Qed.
 
-Definition incb (l : list Z) : bool := chain_okb Z.ltb l.
 Lemma incb_sound l : incb l = true -> inc l.
 Proof. apply chain_sorted; [intros a b H; apply Z.ltb_lt; exact H|intros; lia]. Qed.
-
-Definition dwfb (d : dom) : bool := t_s (d_tr d) <? t_e (d_tr d).
-Definition layb (L : list dom) : bool :=
-  forallb dwfb L && chain_okb (fun a b => t_e (d_tr a) <=? t_s (d_tr b)) L.
 
 Lemma layb_sound L : layb L = true -> lay L.
 Proof.
@@ -52,8 +41,6 @@ Proof.
     rewrite Forall_forall in *. intros x Hx. specialize (F x Hx). unfold dbefore in F. lia.
 Qed.
 
-Definition iwfb (q : dom) : bool :=
-  incb (d_data q) && forallb (fun x => (t_s (d_tr q) <=? x) && (x <? t_e (d_tr q))) (d_data q).
 Lemma iwfb_sound q : iwfb q = true -> iwf q.
 Proof.
   unfold iwfb. intros H. apply andb_true_iff in H. destruct H as [H1 H2]. split; [apply incb_sound, H1|].
@@ -61,27 +48,135 @@ Proof.
   apply andb_true_iff in H2. destruct H2; zb. lia.
 Qed.
 
-Definition ilayb (P : list dom) : bool := layb P && forallb iwfb P.
 Lemma ilayb_sound P : ilayb P = true -> ilay P.
 Proof.
   unfold ilayb. intros H. apply andb_true_iff in H. destruct H as [H1 H2]. split; [apply layb_sound, H1|].
   apply Forall_forall. intros q Hq. rewrite forallb_forall in H2. apply iwfb_sound, H2, Hq.
 Qed.
 
-Definition withinb (P : list dom) (d : dom) : bool :=
-  existsb (fun q => (t_s (d_tr q) <=? t_s (d_tr d)) && (t_e (d_tr d) <=? t_e (d_tr q)) &&
-                    (dlen d =? zlen (stamps_in (d_tr d) (d_data q)))) P.
-Lemma withinb_sound P d : withinb P d = true -> within P d.
+(* ---- a data domain inside ONE index domain ---- *)
+Lemma stamps_in_concat t ls : stamps_in t (concat ls) = concat (map (stamps_in t) ls).
 Proof.
-  unfold withinb. intros H. apply existsb_exists in H. destruct H as (q & Hq & H).
-  apply andb_true_iff in H. destruct H as [H H3]. apply andb_true_iff in H. destruct H as [H1 H2]. zb.
-  destruct (In_znth_lt _ _ Hq) as (k & _ & Hk). exists k, q. auto.
+  unfold stamps_in. induction ls as [|l ls IH]; [reflexivity|]. simpl. rewrite filter_app, IH. reflexivity.
 Qed.
 
-Definition layout_okb (P D : list dom) : bool := ilayb P && layb D && forallb (withinb P) D.
+Lemma stamps_of_one P k q t : ilay P -> znth P k = Some q ->
+  t_s (d_tr q) <= t_s t -> t_e t <= t_e (d_tr q) ->
+  stamps_in t (stamps_of P) = stamps_in t (d_data q).
+Proof.
+  intros [HL HW] Hk H1 H2. destruct (znth_split P k q Hk) as (pre & post & -> & _).
+  destruct (lay_split pre q post HL) as (Lpre & Wq & Lpost & Bef & Aft).
+  apply Forall_app in HW. destruct HW as [Wpre Wqp]. apply Forall_cons_iff in Wqp. destruct Wqp as [Wq' Wpost].
+  unfold stamps_of. rewrite map_app, concat_app. cbn [map concat].
+  unfold stamps_in at 1. rewrite !filter_app. fold (stamps_in t (d_data q)).
+  assert (E1 : filter (contains_stamp t) (concat (map d_data pre)) = []).
+  { apply filter_none. intros x Hx. apply in_concat in Hx. destruct Hx as (l & Hl & Hx).
+    apply in_map_iff in Hl. destruct Hl as (p & <- & Hp).
+    rewrite Forall_forall in Wpre. pose proof (iwf_stamps p x (Wpre p Hp) Hx) as R.
+    specialize (Bef p Hp). unfold dbefore in Bef.
+    unfold contains_stamp. apply andb_false_iff. left. apply Z.leb_gt. lia. }
+  assert (E2 : filter (contains_stamp t) (concat (map d_data post)) = []).
+  { apply filter_none. intros x Hx. apply in_concat in Hx. destruct Hx as (l & Hl & Hx).
+    apply in_map_iff in Hl. destruct Hl as (p & <- & Hp).
+    rewrite Forall_forall in Wpost. pose proof (iwf_stamps p x (Wpost p Hp) Hx) as R.
+    specialize (Aft p Hp). unfold dbefore in Aft.
+    unfold contains_stamp. apply andb_false_iff. right. apply Z.ltb_ge. lia. }
+  rewrite E1, E2, app_nil_r. reflexivity.
+Qed.
+
+Lemma dist_ok_one_domain P k q a e : ilay P -> znth P k = Some q ->
+  t_s (d_tr q) <= a < t_e (d_tr q) -> e <= t_e (d_tr q) -> dist_ok P a e.
+Proof.
+  intros HP Hk Ha He t Ht.
+  assert (Wq : iwf q).
+  { destruct HP as [_ W]. rewrite Forall_forall in W. apply W.
+    unfold znth in Hk. destruct (k <? 0); [discriminate|]. eapply nth_error_In; eauto. }
+  destruct (distance_one_domain P k q (proj1 HP) Hk (proj1 Wq) a t Ha ltac:(lia)) as (da & D1 & D2).
+  exists da. split; [exact D1|]. rewrite D2. unfold between.
+  rewrite <- (stamps_in_len a t (stamps_of P)) by lia.
+  rewrite <- (stamps_in_len a t (d_data q)) by lia.
+  rewrite (stamps_of_one P k q (TR a t) HP Hk); cbn [t_s t_e]; [reflexivity|lia|lia].
+Qed.
+
+(* ---- a data domain over a run of contiguous index domains ---- *)
+Lemma contig_prefix l1 l2 : contig (l1 ++ l2) -> contig l1.
+Proof.
+  induction l1 as [|x l1 IH]; intros H; [exact I|]. destruct l1 as [|y l1']; [exact I|].
+  cbn [app contig] in *. destruct H as [H1 H2]. split; [exact H1|apply IH, H2].
+Qed.
+
+(* the domain of a contiguous run in which a stamp beyond its first domain falls *)
+Lemma find_end t : forall rest x, contig (x :: rest) ->
+  t_e (d_tr x) < t <= t_e (d_tr (last rest x)) ->
+  exists mid qe rest', rest = mid ++ qe :: rest' /\ t_s (d_tr qe) < t <= t_e (d_tr qe).
+Proof.
+  induction rest as [|y r IH]; intros x Hc Ht; [cbn in Ht; lia|].
+  destruct Hc as [Hxy Hc'].
+  destruct (Z_le_gt_dec t (t_e (d_tr y))) as [Hle|Hgt].
+  - exists [], y, r. split; [reflexivity|lia].
+  - rewrite last_cons in Ht. destruct (IH y Hc' ltac:(lia)) as (mid & qe & rest' & -> & H).
+    exists (y :: mid), qe, rest'. split; [reflexivity|exact H].
+Qed.
+
+Lemma dist_ok_run P L1 q rest L2 a e : ilay P -> P = L1 ++ q :: rest ++ L2 -> contig (q :: rest) ->
+  t_s (d_tr q) <= a < t_e (d_tr q) -> e <= t_e (d_tr (last rest q)) -> dist_ok P a e.
+Proof.
+  intros HP HPeq Hc Ha He t Ht.
+  destruct (Z_le_gt_dec t (t_e (d_tr q))) as [Hle|Hgt].
+  - assert (Hk : znth P (zlen L1) = Some q) by (rewrite HPeq; apply znth_mid).
+    exact (dist_ok_one_domain P (zlen L1) q a (t_e (d_tr q)) HP Hk Ha ltac:(lia) t ltac:(lia)).
+  - destruct (find_end t rest q Hc ltac:(lia)) as (mid & qe & rest' & -> & Hqe).
+    assert (HPeq' : P = L1 ++ q :: mid ++ qe :: (rest' ++ L2)).
+    { rewrite HPeq. rewrite <- app_assoc. reflexivity. }
+    assert (Hc' : contig (q :: mid ++ [qe])).
+    { apply (contig_prefix (q :: mid ++ [qe]) rest').
+      replace ((q :: mid ++ [qe]) ++ rest') with (q :: mid ++ qe :: rest') by (cbn [app]; rewrite <- app_assoc; reflexivity).
+      exact Hc. }
+    destruct HP as [HL HW]. rewrite HPeq' in HL, HW.
+    assert (Wq : iwf q).
+    { apply Forall_app in HW. destruct HW as [_ HW]. apply Forall_cons_iff in HW. apply HW. }
+    assert (Wqe : iwf qe).
+    { apply Forall_app in HW. destruct HW as [_ HW]. apply Forall_cons_iff in HW. destruct HW as [_ HW].
+      apply Forall_app in HW. destruct HW as [_ HW]. apply Forall_cons_iff in HW. apply HW. }
+    destruct (distance_run L1 mid (rest' ++ L2) q qe HL Hc' (proj1 Wq) (proj1 Wqe) a t Ha Hqe) as (da & D1 & D2).
+    exists da. rewrite HPeq'. split; [exact D1|]. rewrite D2.
+    symmetry. apply (run_between_count L1 q mid qe (rest' ++ L2) a t HL HW Ha Hqe).
+Qed.
+
+Lemma contig_run_spec x l : contig (x :: contig_run x l) /\ exists r, l = contig_run x l ++ r.
+Proof.
+  revert x. induction l as [|y l IH]; intros x; [split; [exact I|exists []; reflexivity]|].
+  cbn [contig_run]. destruct (t_e (d_tr x) =? t_s (d_tr y)) eqn:E; zb.
+  - destruct (IH y) as (C & r & Hr). split; [split; [exact E|exact C]|]. exists r. cbn [app]. f_equal. exact Hr.
+  - split; [exact I|]. exists (y :: l). reflexivity.
+Qed.
+
+Lemma drop_ended_spec ts P : exists L1, P = L1 ++ drop_ended ts P.
+Proof.
+  induction P as [|q r IH]; [exists []; reflexivity|]. cbn [drop_ended].
+  destruct (t_e (d_tr q) <=? ts); [|exists []; reflexivity].
+  destruct IH as [L1 H]. exists (q :: L1). cbn [app]. f_equal. exact H.
+Qed.
+
+Lemma withinb_sound P d : ilay P -> dwf d -> withinb P d = true -> within P d.
+Proof.
+  unfold withinb. intros HP Wd H.
+  destruct (drop_ended_spec (t_s (d_tr d)) P) as [L1 HL1].
+  destruct (drop_ended (t_s (d_tr d)) P) as [|q r] eqn:DE; [discriminate|].
+  apply andb_true_iff in H. destruct H as [H H4]. apply andb_true_iff in H. destruct H as [H H3].
+  apply andb_true_iff in H. destruct H as [H1 H2]. zb.
+  destruct (contig_run_spec q r) as (C & r2 & Hr).
+  split; [|exact H4].
+  apply (dist_ok_run P L1 q (contig_run q r) r2 _ _ HP); try assumption; [|lia].
+  rewrite HL1. f_equal. f_equal. exact Hr.
+Qed.
+
 Theorem layout_okb_sound P D : layout_okb P D = true -> layout_ok P D.
 Proof.
   unfold layout_okb. intros H. apply andb_true_iff in H. destruct H as [H H3]. apply andb_true_iff in H. destruct H as [H1 H2].
-  split; [apply ilayb_sound, H1|]. split; [apply layb_sound, H2|].
-  apply Forall_forall. intros d Hd. rewrite forallb_forall in H3. apply withinb_sound, H3, Hd.
+  pose proof (ilayb_sound P H1) as HP. pose proof (layb_sound D H2) as HD.
+  split; [apply ilay_inc_stamps, HP|]. split; [exact HD|].
+  apply Forall_forall. intros d Hd. rewrite forallb_forall in H3.
+  apply withinb_sound; [exact HP| |apply H3, Hd].
+  destruct HD as [W _]. rewrite Forall_forall in W. apply W, Hd.
 Qed.
